@@ -376,6 +376,32 @@ fn msg_case<T: Elem>(w: &mut W, n: usize, rot: usize, q: usize) {
             }
         }
 
+        // (c') the same with every header field a caller controls set away from its default (notify, an error
+        // code, an unknown query format): the streaming writer forwards them exactly as the builder does
+        {
+            let ecs = [repe::ErrorCode::ParseError, repe::ErrorCode::MethodNotFound, repe::ErrorCode::InvalidBody, repe::ErrorCode::Timeout, repe::ErrorCode::VersionMismatch];
+            let ec = ecs[(n + q + rot) % ecs.len()];
+            let notify = (n + q) % 2 == 0;
+            let built = base_builder(q).notify(notify).error_code(ec).query_format_code(7).body_typed_slice(&v).build().to_vec();
+            let mut h = Header::new();
+            h.id = REQ_ID;
+            h.query_format = 7;
+            h.notify = u8::from(notify);
+            h.ec = ec as u32;
+            let mut streamed = Vec::new();
+            let r = repe::write_message_typed_slice(&mut streamed, h, path_for(q).as_bytes(), &v);
+            w.add(C::impl_calls, 2);
+            match r {
+                Err(e) => w.fail("C08:streamed:error".into(), || format!("write_message_typed_slice failed on a decorated header: {e} ({case})"), &case),
+                Ok(()) if streamed != built => w.fail(
+                    "C08:streamed-vs-built:typed:decorated-header".into(),
+                    || format!("{}[{n}] q={q} notify={notify} ec={}: streamed header {} != built header {}", T::NAME, ec as u32, hex(&streamed[..48.min(streamed.len())]), hex(&built[..48.min(built.len())])),
+                    &case,
+                ),
+                Ok(()) => w.inc(C::streamed_frames_equal),
+            }
+        }
+
         // (e) wrong header body format -> bulk decoder refuses
         for code in [0u16, 2, 3, 0x7777] {
             for (enc, src) in [("bulk", &bulk), ("generic", &generic)] {
@@ -497,6 +523,30 @@ where
             w.inc(C::streamed_frames_equal);
             if n >= 64 {
                 w.inc(C::streamed_frames_size_prefix_2_or_more_bytes);
+            }
+        }
+        // (c') decorated header (see the scalar case)
+        {
+            let ecs = [repe::ErrorCode::ParseError, repe::ErrorCode::MethodNotFound, repe::ErrorCode::InvalidBody, repe::ErrorCode::Timeout, repe::ErrorCode::VersionMismatch];
+            let ec = ecs[(n + q + rot) % ecs.len()];
+            let notify = (n + q) % 2 == 0;
+            let built = base_builder(q).notify(notify).error_code(ec).query_format_code(7).body_complex_slice(&v).build().to_vec();
+            let mut h = Header::new();
+            h.id = REQ_ID;
+            h.query_format = 7;
+            h.notify = u8::from(notify);
+            h.ec = ec as u32;
+            let mut streamed = Vec::new();
+            let r = repe::write_message_complex_slice(&mut streamed, h, path_for(q).as_bytes(), &v);
+            w.add(C::impl_calls, 2);
+            match r {
+                Err(e) => w.fail("C08:streamed:error:complex".into(), || format!("write_message_complex_slice failed on a decorated header: {e} ({case})"), &case),
+                Ok(()) if streamed != built => w.fail(
+                    "C08:streamed-vs-built:complex:decorated-header".into(),
+                    || format!("{}[{n}] q={q} notify={notify} ec={}: streamed header {} != built header {}", T::CNAME, ec as u32, hex(&streamed[..48.min(streamed.len())]), hex(&built[..48.min(built.len())])),
+                    &case,
+                ),
+                Ok(()) => w.inc(C::streamed_frames_equal),
             }
         }
         // (e) wrong header format, wrong component type, scalar/complex confusion
